@@ -163,6 +163,27 @@ pub fn minimise(env: &Env, start: MiniWorld, item: Option<Item>, d0: Divergence,
         c.bad.argv = r.argv.clone();
         attempt!("reset argv", c);
     }
+    if cur.bad.hostname != r.hostname || cur.bad.uid != r.uid || cur.bad.ncpu != r.ncpu {
+        let mut c = cur.clone();
+        c.bad.hostname = r.hostname.clone();
+        c.bad.uid = r.uid;
+        c.bad.ncpu = r.ncpu;
+        attempt!("reset hostname/uid/ncpu", c);
+    }
+    if cur.bad.fs_map != r.fs_map {
+        let mut c = cur.clone();
+        c.bad.fs_map = r.fs_map.clone();
+        if !attempt!("reset file-system view", c) {
+            // keep only the entries that matter
+            let mut i = cur.bad.fs_map.len();
+            while i > 0 {
+                i -= 1;
+                let mut c = cur.clone();
+                c.bad.fs_map.remove(i);
+                attempt!(format!("drop file-system entry #{}", i), c);
+            }
+        }
+    }
     if has_perturb(&cur.bad) {
         let mut c = cur.clone();
         c.bad.events.retain(|e| !matches!(e, Event::Perturb { .. }));
